@@ -316,9 +316,10 @@ def run_focus(ctx, focus_name, rng_name="main", scale=1.0):
     runner.flush(on_result)
     judge(ctx, focus, collected, sds)
     runner.close()
-    if focus_name == "C03":
+    if focus_name in ("C03", "C05"):
         # the same commands the way env.py runs them: a fresh MigrationContext per command, heads
-        # read from the table, version-table options (harness/rev_ctx.py)
+        # read from the table, version-table options (harness/rev_ctx.py); for C05 this is where
+        # `stamp` meets version_table / version_table_schema / version_table_pk
         from . import rev_ctx
 
         cases = []
